@@ -140,6 +140,15 @@ def main(argv):
     try:
         mod = importlib.import_module('harness.checks.' + a.pid.lower())
         mod.run(ctx)
+        if a.replay:
+            # replay: the check is run again and only the violation class recorded in the replay file counts
+            try:
+                want = json.load(open(a.replay))['key']
+            except Exception as e:
+                print('cannot read replay file %s: %s' % (a.replay, e))
+                return 2
+            ctx.violations = [v for v in ctx.violations if v['key'] == want]
+            print('replay of %s: violation class %s %s' % (a.replay, want, 'REPRODUCED' if ctx.violations else 'not reproduced'))
         rc = finish(ctx)
     except SystemExit:
         raise
